@@ -355,6 +355,8 @@ impl<'a> Peripheral<'a> {
                 // when it comes back.
                 log::warn!("Peripheral #{} stopped responding!", self.address);
                 self.state = PeripheralState::Offline;
+                // The first request after the peripheral comes back must start a new FCB sequence.
+                self.fcb.reset();
                 Err((tx, Some(PeripheralEvent::Offline)))
             }
             PeripheralState::Offline => {
